@@ -157,8 +157,8 @@ Definition parse_usize_value_stmt : Prop :=
    Span::new with end < start, index out of bounds, debug_assert!) and no loop
    runs out of fuel — for the code as it is and for every combination of the repairs *)
 Definition yacc_parse_total_stmt : Prop :=
-  forall (fixed fixed_aspan fixed_pspan : bool) (kind : ykind) (src : str),
-    exists r, run_case fixed fixed_aspan fixed_pspan kind src = Done r.
+  forall (fixed fixed_aspan fixed_pspan fixed_precused : bool) (kind : ykind) (src : str),
+    exists r, run_case fixed fixed_aspan fixed_pspan fixed_precused kind src = Done r.
 
 (* ---- action spans ----------------------------------------------------------- *)
 (* the span stored with an action selects the action text *)
@@ -166,8 +166,8 @@ Definition action_ok (src : str) (act : option (str * span)) : Prop :=
   match act with Some (t, (s, e)) => slice src s e = Done t | None => True end.
 
 Definition action_spans_select_for (fixed_aspan : bool) : Prop :=
-  forall fixed fixed_pspan kind src a errs w,
-    run_case fixed fixed_aspan fixed_pspan kind src = Done (TResult a errs w) ->
+  forall fixed fixed_pspan fixed_precused kind src a errs w,
+    run_case fixed fixed_aspan fixed_pspan fixed_precused kind src = Done (TResult a errs w) ->
     Forall (fun p => action_ok src (p_action p)) (a_prods a).
 
 (* with the proposed repair: for every source text whatsoever *)
@@ -175,8 +175,8 @@ Definition action_span_fixed_stmt : Prop := action_spans_select_for true.
 
 (* the code as it is: refuted (parser.rs:742) *)
 Definition action_span_refuted_stmt : Prop :=
-  exists fixed kind src, forall fixed_pspan,
-    match run_case fixed false fixed_pspan kind src with
+  exists fixed kind src, forall fixed_pspan fixed_precused,
+    match run_case fixed false fixed_pspan fixed_precused kind src with
     | Done (TResult a _ _) => ~ Forall (fun p => action_ok src (p_action p)) (a_prods a)
     | _ => False
     end.
